@@ -1,6 +1,7 @@
 import Juniper.Proofs.MergeChans
 import Juniper.Proofs.Replicate
 import Juniper.Proofs.StreamMergeClose
+import Juniper.Proofs.StreamMergeResults
 /-!
 # C12 — Merge / Replicate move every value exactly once and finish when their inputs do
 
@@ -180,6 +181,118 @@ example : ∃ s : St (Option Int), Reach (init (Option Int) 2) s ∧ s.cpc = .cl
   ⟨_, reach_of_run [.inItem 0 (some 3), .cCall true, .sendOk 0, .cClose, .cCloseStep, .cCloseStep, .inCtx 0, .inCtx 1,
       .cas 1, .cas 0, .win 1, .win 1, .win 1, .exitStep 0, .exitStep 0, .exitStep 1, .exitStep 1, .exitStep 0, .exitStep 0,
       .exitStep 0, .exitStep 1, .exitStep 1, .exitStep 1, .cCloseStep] .refl rfl, by decide⟩
+
+/-- **The pipe's sender is closed at most once** (a second `close(s.senderDone)` would panic): in every
+reachable state `sender.Close` has been called at most once — by the winner of the CAS on
+`closeOnce`, or with nil by the last goroutine to bump `nDone`, or at construction for zero inputs. -/
+theorem streamMerge_no_double_close_of_sender (k : Nat) (s : St V) (h : Reach (init V k) s) :
+    s.senderCloses ≤ 1 := by
+  have hc := reach_invC h
+  rcases Nat.eq_zero_or_pos k with hk | hk
+  · have := (hc.z hk).1; omega
+  · have := hc.sc hk; omega
+
+example : ∃ s : St (Option Int), Reach (init (Option Int) 2) s ∧ s.senderCloses = 1 ∧ s.senderErr = some (.inj 7) ∧
+    s.gs.map (·.pc) = [.finished, .finished] :=
+  ⟨_, reach_of_run [.inErr 0 7, .inErr 1 8, .cas 0, .cas 1, .win 0, .win 0, .win 0,
+      .exitStep 0, .exitStep 0, .exitStep 0, .exitStep 0, .exitStep 0, .exitStep 1, .exitStep 1, .exitStep 1,
+      .exitStep 1, .exitStep 1] .refl rfl, by decide⟩
+
+/-- **Zero inputs: the merged stream ends at once.** In every state reachable from `Merge()` the
+sender is closed with nil, so a `Next` of the consumer can always take its `senderDone` arm, and doing
+so reports the normal end. -/
+theorem streamMerge_zero_inputs_ends (s : St V) (h : Reach (init V 0) s) :
+    s.senderCloses = 1 ∧ s.senderErr = none ∧
+    ∀ live, s.cpc = .inNext live → ∃ s', step s .cEnd = some s' ∧ s'.results = s.results ++ [.endd] := by
+  obtain ⟨h1, h2⟩ := (reach_invC h).z rfl
+  refine ⟨h1, h2, ?_⟩
+  intro live hc
+  obtain ⟨s', hs', _, _, hr⟩ := cEnd_enabled hc (by omega : 0 < s.senderCloses)
+  exact ⟨s', hs', by rw [hr, h2]⟩
+
+example : ∃ s : St (Option Int), Reach (init (Option Int) 0) s ∧ s.results = [.endd, .endd] :=
+  ⟨_, reach_of_run [.cCall true, .cEnd, .cCall false, .cEnd] .refl rfl, by decide⟩
+
+/-- **stream.Merge reports the first error of any input, never the normal end** (also the Merge clause
+of C08). In every reachable state: (1) an error the consumer was given is an injected error `x` of some
+input `i` — never the error of the merge's own cancelled context —, that input really returned it
+(`errLog`), and it is the error of the goroutine whose CAS on `closeOnce` succeeded, i.e. of the first
+goroutine to reach the CAS with an error (`winner` is written once); hence all errors reported are
+the same; (2) once any input has returned an error the consumer is never told the normal end;
+(3) once the sender is closed with error `e`, a pending `Next` can always return, and returns `e`. -/
+theorem streamMerge_first_error (k : Nat) (s : St V) (h : Reach (init V k) s) :
+    (∀ e, Res.err e ∈ s.results → ∃ i x, e = .inj x ∧ s.winner = some (i, .inj x) ∧ (i, x) ∈ s.errLog) ∧
+    (s.errLog ≠ [] → Res.endd ∉ s.results) ∧
+    (∀ e, s.senderErr = some e → 0 < s.senderCloses → ∀ live, s.cpc = .inNext live →
+      ∃ s', step s .cEnd = some s' ∧ s'.results = s.results ++ [.err e]) := by
+  have ha := reach_invA h
+  have hc := reach_invC h
+  have hf := reach_invF h
+  refine ⟨?_, ?_, ?_⟩
+  · intro e he
+    obtain ⟨i, x, h1, h2⟩ := hf.r1 e he
+    exact ⟨i, x, h1, h2, hc.w4 i x h2⟩
+  · intro hne hend
+    obtain ⟨hco, hall⟩ := hf.r4 hend
+    cases hl : s.errLog with
+    | nil => exact hne hl
+    | cons p rest =>
+      obtain ⟨g, hg, hlog⟩ := hf.r5 p (by rw [hl]; simp)
+      have hgm := List.mem_of_getElem? hg
+      have hw := hall g hgm
+      have hloc := ha.loc g hgm
+      rcases hlog with hlog | hlog | hlog
+      · have : inLoop g.pc = true := by
+          cases hp : g.pc <;> simp [hp, isErrPc, inLoop] at hlog ⊢
+        have := hloc.why.mpr this
+        rw [hw] at this; cases this
+      · rw [hw] at hlog; cases hlog
+      · rw [hw] at hlog; cases hlog
+  · intro e he hpos live hcp
+    obtain ⟨s', hs', _, _, hr⟩ := cEnd_enabled hcp hpos
+    exact ⟨s', hs', by rw [hr, he]⟩
+
+example : ∃ s : St (Option Int), Reach (init (Option Int) 2) s ∧
+    s.results = [.item 1 (some 5), .err (.inj 7), .err (.inj 7)] ∧ s.errLog = [(0, 7), (1, 8)] :=
+  ⟨_, reach_of_run [.inItem 1 (some 5), .inErr 0 7, .cCall true, .sendOk 1, .inErr 1 8, .cas 0, .cas 1, .win 0, .win 0,
+      .cCall true, .cEnd, .cCall false, .cEnd] .refl rfl, by decide⟩
+
+/-- **The merged stream ends only when every input has ended and everything was delivered** (the
+"only if" half of `streamMerge_end_iff_all_done`; the "if" half is `streamMerge_end_when_all_ended`).
+In every reachable state in which the consumer has been told the normal end: every input's `Next`
+returned `End` (no goroutine left its loop for another reason), no input ever returned an error, and
+the items the consumer received from input `i` are exactly the items `in[i].Next` returned, in
+order. -/
+theorem streamMerge_end_only_if_all_done (k : Nat) (s : St V) (h : Reach (init V k) s)
+    (hend : Res.endd ∈ s.results) :
+    (∀ i g, s.gs[i]? = some g → g.why = some .ended ∧ proj i s.out = g.items) ∧ s.errLog = [] := by
+  have ha := reach_invA h
+  have hf := reach_invF h
+  have hb : InvB k s := by
+    clear hend hf ha
+    induction h with
+    | refl => exact invB_init k
+    | step l hr hs ih => exact invB_step (reach_invA hr) ih hs
+  obtain ⟨hco, hall⟩ := hf.r4 hend
+  refine ⟨?_, ?_⟩
+  · intro i g hg
+    have hgm := List.mem_of_getElem? hg
+    have hw := hall g hgm
+    refine ⟨hw, ?_⟩
+    have hloc := ha.loc g hgm
+    have hnl : inLoop g.pc = false := by
+      cases hh : inLoop g.pc
+      · rfl
+      · have := hloc.why.mpr hh; rw [hw] at this; cases this
+    have hheld : heldG g.pc = [] := by
+      cases hp : g.pc <;> simp [hp, heldG, inLoop] at hnl ⊢
+    have hdrop : g.dropped = [] := hf.drop g hgm (by rw [hw]; simp)
+    have := hb.conserve i g hg
+    rw [hheld, hdrop] at this
+    simpa using this
+  · cases hl : s.errLog with
+    | nil => rfl
+    | cons p rest => exact absurd hend ((streamMerge_first_error k s h).2.1 (by rw [hl]; simp))
 
 end streamMerge
 
